@@ -11,18 +11,63 @@ pub const HI: isize = 4;
 
 /// `which`: 16 = soundness half, 17 = completeness/uniqueness half
 pub fn eval(p: &Prog, which: u32) -> (String, Option<String>, bool, u64) {
-    let out = run_prog(p);
+    // labelling enumerates whole domain products: a generous budget, so that only a genuinely diverging
+    // run is cut short
+    let out = run_prog_b(p, 3_000_000);
     let fuel = model_fuel(&out);
     let line = show_run(&out, false);
     let answers = match &out {
         RunOut::Answers(a, _) => a,
-        RunOut::Budget(_) => return (line, Some("finite-domain program exhausted the step budget".into()), true, fuel),
+        RunOut::Budget(_) => {
+            return (line, if which == 17 { Some("finite-domain program did not finish within 3,000,000 engine steps (answers lost to divergence)".into()) } else { None }, true, fuel)
+        }
         RunOut::Panic(s) => {
             // C23 owns panics on well-formed programs; here a panic is reported by the half that lost answers
             return (line, if which == 17 { Some(format!("panic at {}", s)) } else { None }, true, fuel);
         }
     };
     let (wlo, whi) = window(&p.body);
+    // a query variable bound to a list / compound term of FD variables: `q == S(x1..xn)` as the first goal
+    if let Some(PG::Eq(T::Var(0), s)) = p.body.first() {
+        if p.nq == 1 && !matches!(s, T::Var(_) | T::Num(_)) {
+            let mut proj = vec![];
+            s.vars(&mut proj);
+            proj.sort();
+            proj.dedup();
+            let sols = match fd_solutions_proj(p.nvars, &proj, &p.body[1..], wlo, whi) {
+                Some(x) => x,
+                None => return (line, None, false, fuel),
+            };
+            let want: Vec<String> = sols
+                .iter()
+                .map(|a| {
+                    let t = s.subst(&|x| match x {
+                        T::Var(k) => proj.iter().position(|i| i == k).map(|i| T::Num(a[i])),
+                        _ => None,
+                    });
+                    Ans { terms: vec![t], constraints: vec![], relevant: vec![vec![]], constrained: vec![false] }.show("")
+                })
+                .collect();
+            let got: Vec<String> = answers.iter().map(|a| a.show("")).collect();
+            let mut fail = None;
+            if which == 16 {
+                for g in &got {
+                    if !want.contains(g) {
+                        fail = Some(format!("answer `{}` is not a solution (structured query term)", g));
+                        break;
+                    }
+                }
+            } else {
+                let (mut w, mut g) = (want.clone(), got.clone());
+                w.sort();
+                g.sort();
+                if w != g {
+                    fail = Some(format!("labelling through the structured query term returned {} answers, {} solutions expected (each exactly once)", got.len(), want.len()));
+                }
+            }
+            return (line, fail, want.len() > 1, fuel);
+        }
+    }
     let sols = match fd_solutions(p.nvars, p.nq, &p.body, wlo, whi) {
         Some(s) => s,
         None => return (line, None, false, fuel),
@@ -74,6 +119,9 @@ fn corpus() -> Vec<&'static str> {
         "prog 3 3 0 - infd v0 I 1 3 infd v1 I 1 3 infd v2 I 1 3 distinctfd cons v0 cons v1 cons v2 nil",
         "prog 2 2 0 - ltefd v0 v1 infd v0 I 2 4 infd v1 I 0 3",
         "prog 2 2 0 - infd cons v0 cons v1 nil I 0 2 diseqfd v0 v1 eq v0 v1",
+        // D15: labelling through a compound / list query term
+        "prog 3 1 0 - eq v0 comp0 cons v1 cons v2 nil infd v1 I 0 1 infd v2 I 0 1",
+        "prog 3 1 0 - eq v0 cons v1 cons cons v2 nil nil infd v1 I 0 1 infd v2 V 2 3 5 ltfd v1 v2",
     ]
 }
 
@@ -102,8 +150,38 @@ pub fn gen_prog(r: &mut Rng) -> Prog {
         let pos = r.below(body.len() + 1);
         body.insert(pos, PG::Conde(vec![c1, c2]));
     }
+    if r.chance(1, 8) {
+        // the query variable is a list / pair / nested list of the FD variables
+        let shift = |t: &T| t.subst(&|x| match x { T::Var(k) => Some(T::Var(k + 1)), _ => None });
+        let body: Vec<PG> = body.iter().map(|g| shift_goal(g, &shift)).collect();
+        let vs: Vec<T> = (1..=nv).map(T::Var).collect();
+        let s = match r.below(3) {
+            0 => T::list(vs.clone()),
+            1 => T::Comp(0, vec![vs[0].clone(), T::list(vs[1..].to_vec())]),
+            _ => T::cons(vs[0].clone(), T::list(vec![T::list(vs[1..].to_vec()), T::Num(7)])),
+        };
+        let mut b = vec![PG::Eq(T::Var(0), s)];
+        b.extend(body);
+        return Prog { nvars: nv + 1, nq: 1, take: 0, body: b, raw: false };
+    }
     let nq = 1 + r.below(nv);
     Prog { nvars: nv, nq, take: 0, body, raw: false }
+}
+
+fn shift_goal(g: &PG, f: &dyn Fn(&T) -> T) -> PG {
+    match g {
+        PG::InFd(x, d) => PG::InFd(f(x), d.clone()),
+        PG::PlusFd(a, b, c) => PG::PlusFd(f(a), f(b), f(c)),
+        PG::MinusFd(a, b, c) => PG::MinusFd(f(a), f(b), f(c)),
+        PG::TimesFd(a, b, c) => PG::TimesFd(f(a), f(b), f(c)),
+        PG::LteFd(a, b) => PG::LteFd(f(a), f(b)),
+        PG::LtFd(a, b) => PG::LtFd(f(a), f(b)),
+        PG::DiseqFd(a, b) => PG::DiseqFd(f(a), f(b)),
+        PG::DistinctFd(a) => PG::DistinctFd(f(a)),
+        PG::Eq(a, b) => PG::Eq(f(a), f(b)),
+        PG::Conde(cs) => PG::Conde(cs.iter().map(|c| c.iter().map(|x| shift_goal(x, f)).collect()).collect()),
+        other => other.clone(),
+    }
 }
 
 pub fn run(seed: u64, thorough: bool, which: u32, out: &mut Out) {
